@@ -109,9 +109,36 @@ def exn(e):
     return f"{type(e).__name__}: {e}"
 
 
+def version_flags(err):
+    import re as _re
+    flags = []
+    for line in err.split("\n"):
+        m = _re.match(r"^(\d+): .* instruction is not supported in Teal version", line)
+        if m:
+            flags.append([int(m.group(1)), "ins"])
+            continue
+        m = _re.match(r"^(\d+): .*, field .* is not supported in Teal version", line)
+        if m:
+            flags.append([int(m.group(1)), "field"])
+    return flags, "program contains instructions specific to both Application and Signature Mode" in err
+
+
+def teal_extra(t, err):
+    flags, mixed = version_flags(err)
+    import re as _re
+    costs = {}
+    for b in t.bbs:
+        m = _re.search(r"cost = (\d+)", b.tealer_comments[0] if b.tealer_comments else "")
+        if m:
+            costs[str(b.idx)] = m.group(1)
+    return {"flags": flags, "mixed": mixed, "costs": costs, "contract_type": str(t.contract_type)}
+
+
 def handle_cfg(text):
-    t, _, _ = quiet(parse_teal, text)
-    return teal_fields(t)
+    t, _, err = quiet(parse_teal, text)
+    r = teal_fields(t)
+    r.update(teal_extra(t, err))
+    return r
 
 
 def detector_classes():
